@@ -233,6 +233,47 @@ def workspace_scenario(binary, files, open_rel, probes, timeout=30.0, pre_open=(
         shutil.rmtree(root, ignore_errors=True)
 
 
+def ondisk_session(binary, files, opens, requests, timeout=30.0):
+    """files {relative path: text} written before the server starts; didOpen of every path in `opens` (in order); then the requests
+    [(method, relative path, (line, character), extra params)] in order.  returns the list of raw responses and whether the server is alive"""
+    root = tempfile.mkdtemp(prefix='glas-verif-ws-', dir=dump.scratch('lsp'))
+    try:
+        for rel, text in files.items():
+            p = os.path.join(root, rel)
+            os.makedirs(os.path.dirname(p), exist_ok=True)
+            open(p, 'w').write(text)
+        s = Session.__new__(Session)
+        s.root = root
+        env = dict(os.environ, GLEAM_PATH='/nonexistent/gleam')
+        s.p = subprocess.Popen([binary, '--stdio'], stdin=subprocess.PIPE, stdout=subprocess.PIPE, stderr=subprocess.DEVNULL, env=env, cwd=root)
+        s.q = queue.Queue(); s.timeout = timeout; s.next_id = 1; s.unexpected = []; s.notifications = []
+        threading.Thread(target=s._reader, daemon=True).start()
+        r = s.request('initialize', {'processId': None, 'rootUri': 'file://' + root, 'capabilities': {}})
+        if 'result' not in (r or {}):
+            raise RuntimeError('initialize failed: %r' % (r,))
+        s.notify('initialized', {})
+        for rel in opens:
+            s.notify('textDocument/didOpen', {'textDocument': {'uri': 'file://%s/%s' % (root, rel), 'languageId': 'gleam', 'version': 1, 'text': files[rel]}})
+        out = []
+        for method, rel, (line, ch), extra in requests:
+            params = {'textDocument': {'uri': 'file://%s/%s' % (root, rel)}, 'position': {'line': line, 'character': ch}}
+            params.update(extra or {})
+            r = s.request(method, params)
+            out.append(json.loads(json.dumps(r).replace('file://' + root + '/', '')) if isinstance(r, dict) else r)
+        alive = s.alive()
+        try:
+            s.request('shutdown', None); s.notify('exit', None); s.p.wait(timeout=5)
+        except Exception:
+            pass
+        try:
+            s.p.kill()
+        except Exception:
+            pass
+        return out, alive
+    finally:
+        shutil.rmtree(root, ignore_errors=True)
+
+
 def disk_vs_editor_scenario(binary):
     """files exist on disk with OTHER contents than the editor sends: didOpen(main) as the first document of a package that is not loaded yet,
     then didOpen(other), then an edit of main, then didOpen of a file in a second, nested package (its discovery reloads files from disk).
